@@ -71,6 +71,7 @@ struct Sim {
     std::vector<std::vector<uint16_t>> cbstore;         // callback-backed areas
     uint64_t cb_reads = 0, cb_writes = 0, cb_writes_op = 0;
     bool cb_oob = false;
+    std::vector<int> be_hist;   // earlier byte-order requests on the same table object
     bool macro = false;   // the library objects are copies of the table written with the header's macros (sim/regmacros.c)
     bool lift = false; uint32_t shift = 0;   // the library sees every address of the description moved up by 'shift' (see build)
     uint32_t up(uint32_t a) const { return a + shift; }
@@ -149,7 +150,7 @@ struct Sim {
                 A.read = reg_mem_read; A.write = a.has_write ? reg_mem_write : nullptr;
             } else {
                 if (fresh_storage) { cbstore[i].resize(a.size); for (size_t w = 0; w < a.size; ++w) cbstore[i][w] = (uint16_t)(0x5a5a ^ (w * 0x1234 + i)); }
-                A.mem = nullptr; A.read = cb_read; A.write = a.has_write ? cb_write : nullptr;
+                A.mem = nullptr; A.read = a.has_read ? cb_read : nullptr; A.write = a.has_write ? cb_write : nullptr;
             }
         }
         // END sentinel area: all zero (calloc)
@@ -171,6 +172,7 @@ struct Sim {
         memset(&tbl, 0, sizeof tbl);
         tbl.area = areas; tbl.entry = entries;
         if (keep_flags) tbl.flags = old_flags;   // the same table object whose description was edited: its state stays
+        for (int h : be_hist) register_make_bigendian(&tbl, h != 0);   // the byte order may be requested repeatedly (a configuration routine that runs twice); the last request counts
         register_make_bigendian(&tbl, spec.be);
         g_sim = this;
     }
@@ -198,8 +200,21 @@ struct Sim {
         memset(&tbl, 0, sizeof tbl);
         tbl.area = areas; tbl.entry = entries;
         if (keep_flags) tbl.flags = old_flags;
+        for (int h : be_hist) register_make_bigendian(&tbl, h != 0);   // the byte order may be requested repeatedly (a configuration routine that runs twice); the last request counts
         register_make_bigendian(&tbl, spec.be);
         g_sim = this;
+    }
+    // a table with more than 2^16 registers (handles that do not fit 16 bits): u16 registers one after the other in one memory area
+    static TableSpec bulk_spec(size_t n, bool be) {
+        TableSpec t; t.be = be;
+        AreaSpec a; a.base = 0x10; a.size = (uint32_t)n + 8; a.mem = true; a.flags = AF_R | AF_W; a.has_write = true; t.areas.push_back(a);
+        t.regs.reserve(n);
+        for (size_t i = 0; i < n; ++i) {
+            RegSpec g; g.type = T_U16; g.addr = a.base + (uint32_t)i; g.def = 50 + (i % 7);
+            switch (i % 5) { case 0: g.ck = CK_NONE; break; case 1: g.ck = CK_MIN; g.a = 10; break; case 2: g.ck = CK_MAX; g.a = 100; break; default: g.ck = CK_RANGE; g.a = 10; g.b = 100; }
+            t.regs.push_back(g);
+        }
+        return t;
     }
     static TableSpec macro_spec(bool be) {
         TableSpec t; t.be = be;
@@ -248,15 +263,15 @@ struct RegHarness : Harness {
     }
     std::vector<std::string> probes(const std::string &p) const override {
         if (p == "C01") return {"handle_eq_entries", "handle_beyond", "float_nan", "float_inf", "float_subnormal", "float_negative_zero", "type_mismatch_refused",
-                                "constraint_refused", "always_fail_refused", "set_accepted", "unsafe_bypasses_constraint", "callback_area_set", "get_undecodable_storage", "big_endian_table", "sanitise_left_through_error_path", "first_init_failed_then_retried", "value_objects_with_stale_octets", "table_written_with_header_macros", "table_ends_at_top_of_address_space", "area_wider_than_64k_words"};
+                                "constraint_refused", "always_fail_refused", "set_accepted", "unsafe_bypasses_constraint", "callback_area_set", "get_undecodable_storage", "big_endian_table", "sanitise_left_through_error_path", "first_init_failed_then_retried", "value_objects_with_stale_octets", "byte_order_requested_repeatedly", "table_written_with_header_macros", "table_ends_at_top_of_address_space", "area_wider_than_64k_words"};
         if (p == "C02") return {"write_inside_64bit_register", "partial_overlap_violates_constraint", "block_spans_two_areas", "block_into_readonly", "block_into_hole",
-                                "block_write_accepted", "block_decode_failure", "zero_length_write", "readonly_not_at_request_start", "reinit_after_registers_removed", "value_objects_with_stale_octets", "table_written_with_header_macros", "table_ends_at_top_of_address_space", "area_wider_than_64k_words", "request_ends_at_last_address"};
+                                "block_write_accepted", "block_decode_failure", "zero_length_write", "readonly_not_at_request_start", "reinit_after_registers_removed", "block_of_64k_words_or_more", "value_objects_with_stale_octets", "byte_order_requested_repeatedly", "table_written_with_header_macros", "table_ends_at_top_of_address_space", "area_wider_than_64k_words", "request_ends_at_last_address"};
         if (p == "C03") return {"read_write_only_area_mid_area", "read_spans_two_areas", "read_into_hole", "zero_length_read", "iteration_starts_in_gap", "iteration_starts_mid_register",
-                                "iteration_stopped_by_callback", "iteration_negative_callback", "iteration_visits_several", "reinit_after_registers_removed", "value_objects_with_stale_octets", "table_written_with_header_macros", "table_ends_at_top_of_address_space", "area_wider_than_64k_words", "request_ends_at_last_address"};
+                                "iteration_stopped_by_callback", "iteration_negative_callback", "iteration_visits_several", "reinit_after_registers_removed", "area_without_read_callback", "value_objects_with_stale_octets", "byte_order_requested_repeatedly", "table_written_with_header_macros", "table_ends_at_top_of_address_space", "area_wider_than_64k_words", "request_ends_at_last_address"};
         if (p == "C04") return {"defect_no_areas", "defect_areas_swapped", "defect_area_overlap", "defect_regs_swapped", "defect_reg_overlap", "defect_reg_straddles_area_end",
-                                "defect_reg_in_hole", "defect_bad_default", "wellformed_accepted", "restart_over_surviving_callback_storage", "ops_report_uninitialised", "empty_area_between_populated", "reinit_of_initialised_table_rejected", "reinit_after_registers_removed", "value_objects_with_stale_octets", "table_written_with_header_macros", "table_ends_at_top_of_address_space", "area_wider_than_64k_words"};
+                                "defect_reg_in_hole", "defect_bad_default", "wellformed_accepted", "restart_over_surviving_callback_storage", "ops_report_uninitialised", "empty_area_between_populated", "reinit_of_initialised_table_rejected", "reinit_after_registers_removed", "value_objects_with_stale_octets", "byte_order_requested_repeatedly", "table_written_with_header_macros", "table_ends_at_top_of_address_space", "area_wider_than_64k_words"};
         return {"invariant_checked_ops", "refused_op_left_storage_unchanged", "bit_set_exact", "bit_clear_exact", "bit_op_refused_signed_or_float", "sanitise_reset_some_kept_some",
-                "corrupt_then_sanitise", "block_write_refused_by_constraint", "sanitise_left_through_error_path", "sanitise_with_io_error_kept_valid_registers", "reinit_after_registers_removed", "value_objects_with_stale_octets", "table_written_with_header_macros", "table_ends_at_top_of_address_space", "area_wider_than_64k_words", "request_ends_at_last_address"};
+                "corrupt_then_sanitise", "block_write_refused_by_constraint", "sanitise_left_through_error_path", "sanitise_with_io_error_kept_valid_registers", "reinit_after_registers_removed", "value_objects_with_stale_octets", "byte_order_requested_repeatedly", "table_written_with_header_macros", "table_ends_at_top_of_address_space", "area_wider_than_64k_words", "request_ends_at_last_address"};
     }
     Json describe(const std::string &p) const override {
         Json d = Json::obj();
@@ -350,7 +365,7 @@ struct RegHarness : Harness {
     static Json spec_json(const TableSpec &t) {
         Json j = Json::obj(); j["be"] = t.be;
         Json as = Json::arr();
-        for (auto &a : t.areas) { Json e = Json::arr(); e.push((long long)a.base); e.push((long long)a.size); e.push(a.mem ? 1 : 0); e.push((long long)a.flags); e.push(a.has_write ? 1 : 0); as.push(e); }
+        for (auto &a : t.areas) { Json e = Json::arr(); e.push((long long)a.base); e.push((long long)a.size); e.push(a.mem ? 1 : 0); e.push((long long)a.flags); e.push(a.has_write ? 1 : 0); e.push(a.has_read ? 1 : 0); as.push(e); }
         j["areas"] = as;
         Json rs = Json::arr();
         for (auto &g : t.regs) { Json e = Json::arr(); e.push(g.type); e.push((long long)g.addr); e.push(g.ck); e.push(u64hex(g.a)); e.push(u64hex(g.b)); e.push(g.rule); e.push(u64hex(g.def)); rs.push(e); }
@@ -364,7 +379,7 @@ struct RegHarness : Harness {
             const Json &e = as.at(i); AreaSpec a;
             int64_t b = e.ati(0, 0), s = e.ati(1, 1);
             if (b < 0) b = 0; if (b > 0x60000) b = 0x60000; if (s < 1) s = 1; if (s > 0x10040) s = 0x10040;
-            a.base = (uint32_t)b; a.size = (uint32_t)s; a.mem = e.ati(2, 1) != 0; a.flags = (unsigned)e.ati(3, 3) & 7; a.has_write = e.ati(4, 1) != 0;
+            a.base = (uint32_t)b; a.size = (uint32_t)s; a.mem = e.ati(2, 1) != 0; a.flags = (unsigned)e.ati(3, 3) & 7; a.has_write = e.ati(4, 1) != 0; a.has_read = a.mem || e.ati(5, 1) != 0;
             t.areas.push_back(a);
         }
         const Json &rs = j.get("regs");
@@ -402,6 +417,7 @@ struct RegHarness : Harness {
             default: a.flags = AF_R | AF_W;
             }
             if (prop == "C05" && r.chance(2, 3)) { a.flags = AF_R | AF_W; a.has_write = true; }
+            if (prop == "C03" && !a.mem && r.chance(1, 5)) a.has_read = false;   // a callback area without a read callback (a write-only mailbox), whatever its flags say
             t.areas.push_back(a);
             // registers in this area
             uint32_t off = (uint32_t)r.range(0, 2);
@@ -438,11 +454,12 @@ struct RegHarness : Harness {
         size_t nr = t.regs.size();
         uint32_t hi = window_hi(t);
         auto pick_handle = [&]() -> int64_t {
+            if (nr > 65536 && r.chance(1, 2)) return (int64_t)r.range(65530, (int64_t)nr - 1);   // handles on both sides of 2^16
             if (r.chance(1, 10) || nr == 0) { switch (r.below(3)) { case 0: return (int64_t)nr; case 1: return (int64_t)nr + 1; default: return 0x7fffffff; } }
             return (int64_t)r.below(nr);
         };
         if (k == "set" || k == "set_unsafe" || k == "bit_set" || k == "bit_clear") {
-            int64_t h = (prop == "C01") ? pick_handle() : (nr ? (int64_t)r.below(nr) : 0);
+            int64_t h = (prop == "C01" || nr > 65536) ? pick_handle() : (nr ? (int64_t)r.below(nr) : 0);
             o["h"] = (long long)h;
             const RegSpec *g = (h >= 0 && (size_t)h < nr) ? &t.regs[(size_t)h] : nullptr;
             int type = g ? g->type : (int)r.below(8);
@@ -457,11 +474,30 @@ struct RegHarness : Harness {
             uint32_t addr = (uint32_t)r.range(0, hi);
             int64_t n = r.chance(1, 12) ? 0 : r.range(1, r.chance(1, 3) ? (hi > 1024 ? 64 : hi) : 6);
             // bias: start inside / at the edges of a register
-            if (nr && r.chance(2, 3)) { const RegSpec &g = t.regs[r.below(nr)]; int64_t a = (int64_t)g.addr + r.range(-1, (int64_t)wsize(g.type)); if (a < 0) a = 0; addr = (uint32_t)a; if (r.chance(1, 2)) n = r.range(1, wsize(g.type) + 1); }
+            if (nr && r.chance(2, 3)) { const RegSpec &g = t.regs[nr > 65536 && r.chance(1, 2) ? (size_t)r.range(65530, (int64_t)nr - 1) : r.below(nr)]; int64_t a = (int64_t)g.addr + r.range(-1, (int64_t)wsize(g.type)); if (a < 0) a = 0; addr = (uint32_t)a; if (r.chance(1, 2)) n = r.range(1, wsize(g.type) + 1); }
             if (k == "corrupt") { // stay inside one area so that the overwrite is well-defined
-                const AreaSpec &a = t.areas[r.below(t.areas.size())]; addr = a.base + (uint32_t)r.below(a.size); if (n < 1) n = 1; if (addr + n > a.base + a.size) n = a.base + a.size - addr;
+                const AreaSpec &a = t.areas[r.below(t.areas.size())]; addr = a.base + (uint32_t)(a.size > 65540 && r.chance(1, 2) ? r.range(65530, (int64_t)a.size - 1) : r.below(a.size)); if (n < 1) n = 1; if (addr + n > a.base + a.size) n = a.base + a.size - addr;
             }
             o["addr"] = (long long)addr;
+            if (k == "bw" && hi > 0x10000 && nr && r.chance(1, 6)) {
+                // a block of 2^16 words and more over a wide area: it starts near the area's base and reaches a register that lies 65536 or more words behind
+                // the start; every word keeps its content except the ones spelled out (register encodings, valid or not)
+                const AreaSpec *wa = nullptr; for (auto &a2 : t.areas) if (a2.size > 0x10000u) wa = &a2;
+                if (wa) {
+                    addr = wa->base + (uint32_t)r.range(0, 3);
+                    int64_t wn = (int64_t)(wa->base + wa->size - addr) - r.range(0, 3); if (wn < 0x10000) wn = 0x10000;
+                    if (r.chance(1, 3)) wn += (int64_t)r.range(1, 6);   // runs on behind the area
+                    Json wset = Json::arr();
+                    for (size_t ri = 0; ri < nr; ++ri) {
+                        const RegSpec &g = t.regs[ri];
+                        if (g.addr < addr || g.addr + wsize(g.type) > addr + (uint64_t)wn || r.chance(1, 3)) continue;
+                        uint16_t wv[4]; encode(g.type, interesting(r, g.type, &g), t.be, wv);
+                        for (unsigned q = 0; q < wsize(g.type); ++q) { if (r.chance(1, 8)) continue; Json pr = Json::arr(); pr.push((long long)(g.addr + q - addr)); pr.push((long long)wv[q]); wset.push(pr); }
+                    }
+                    o["addr"] = (long long)addr; o["wn"] = (long long)wn; o["wset"] = wset; o["w"] = Json::arr();
+                    return o;
+                }
+            }
             if (k == "br") { o["n"] = (long long)n; return o; }
             Json words = Json::arr();
             for (int64_t i = 0; i < n; ++i) words.push(k == "corrupt" ? Json((long long)r.below(65536)) : Json(-1));
@@ -512,6 +548,8 @@ struct RegHarness : Harness {
         TableSpec ts = gen_table(r, prop);
         bool macro = prop != "C04" && r.chance(1, 12);   // the table written with the header's REG_* / area macros (every macro once)
         if (macro) ts = Sim::macro_spec(r.chance(1, 2));
+        int64_t bulk = 0;
+        if (!macro && prop != "C04" && r.chance(1, t.thorough() ? 1500 : 4000)) { static const int64_t BN[] = {65537, 65600, 66000, 70000}; bulk = BN[r.below(4)]; ts = Sim::bulk_spec((size_t)bulk, r.chance(1, 2)); }
         std::vector<std::string> kinds;
         if (prop == "C01") kinds = {"set", "set", "set", "set", "set_unsafe", "get", "get", "default", "corrupt", "sanitise_any"};
         else if (prop == "C02") kinds = {"bw", "bw", "bw", "bw", "bw", "bw", "corrupt", "touchcheck", "reedit"};
@@ -526,9 +564,12 @@ struct RegHarness : Harness {
             apply_defect(ts, defect, r);
         }
         if (prop != "C04" && r.chance(1, 5)) p["init_fault"] = (long long)r.below(8);
+        if (r.chance(1, 3)) { Json bh = Json::arr(); int nb = (int)r.range(1, 3); for (int i = 0; i < nb; ++i) bh.push(r.chance(1, 2) ? 1 : 0); if (r.chance(1, 2)) bh.push(ts.be ? 1 : 0); p["be_hist"] = bh; }
         if (macro) p["macro"] = 1;
+        else if (bulk) p["bulk"] = (long long)bulk;
         else if (r.chance(1, 12)) p["lift"] = 1;
         { static const int DIRT[] = {0, 0, 0, 0xff, 0xa5, 0x80, 0x01, 0x7f}; p["dirt"] = DIRT[r.below(8)]; p["dirt_tbl"] = r.chance(1, 2) ? 0 : DIRT[r.below(8)]; }
+        if (bulk) { Json tj = Json::obj(); tj["be"] = ts.be; tj["areas"] = Json::arr(); tj["regs"] = Json::arr(); p["table"] = tj; } else
         p["table"] = spec_json(ts);
         Json ops = Json::arr();
         if (!ts.areas.empty()) {
@@ -545,7 +586,11 @@ struct RegHarness : Harness {
         S.spec = spec_from(plan.get("table"));
         const std::string &P = c.prop;
         for (auto &a : S.spec.areas) if (a.size > 0x10000u) { COUNT("probe.area_wider_than_64k_words"); break; }
-        S.macro = plan.geti("macro") != 0;
+        if (P != "C03") for (auto &a : S.spec.areas) a.has_read = true;   // only block reads and iteration are specified for areas without a read callback
+        for (auto &a : S.spec.areas) if (!a.has_read) { COUNT("probe.area_without_read_callback"); break; }
+        { const Json &bh = plan.get("be_hist"); for (size_t i = 0; i < bh.size() && i < 6; ++i) S.be_hist.push_back(bh.ati(i) != 0); if (!S.be_hist.empty()) COUNT("probe.byte_order_requested_repeatedly"); }
+        if (plan.geti("bulk") > 0) { int64_t bn = plan.geti("bulk"); if (bn > 70000) bn = 70000; S.spec = Sim::bulk_spec((size_t)bn, plan.get("table").geti("be") != 0); if (bn > 65535) COUNT("probe.table_with_more_than_64k_registers"); }
+        S.macro = plan.geti("bulk") <= 0 && plan.geti("macro") != 0;
         if (S.macro) { S.spec = Sim::macro_spec(plan.get("table").geti("be") != 0); COUNT("probe.table_written_with_header_macros"); }
         S.lift = !S.macro && plan.geti("lift") != 0;
         if (S.lift) COUNT("probe.table_ends_at_top_of_address_space");
@@ -901,10 +946,14 @@ struct RegHarness : Harness {
         uint32_t addr = (uint32_t)addr64;
         const Json &wj = o.get("w");
         size_t n = wj.size(); if (n > 512) n = 512;
+        // a block too long to spell out: "wn" words that keep the current content, except for the (offset, value) pairs in "wset"
+        const bool longblock = o.has("wn");
+        if (longblock) { int64_t wn = o.geti("wn"); if (wn < 0) wn = 0; if (wn > 0x10080) wn = 0x10080; n = (size_t)wn; if (n >= 65536) COUNT("probe.block_of_64k_words_or_more"); }
         if (!S.clamp_n(addr, n)) return;
         GuardedBlock buf(n * 2 ? n * 2 : 2);
         uint16_t *w = (uint16_t *)buf.p;
-        for (size_t k = 0; k < n; ++k) { int64_t x = wj.ati(k, -1); w[k] = x < 0 ? (S.mapped(addr + (uint32_t)k) ? S.mword(addr + (uint32_t)k) : 0) : (uint16_t)x; }
+        for (size_t k = 0; k < n; ++k) { int64_t x = longblock ? -1 : wj.ati(k, -1); w[k] = x < 0 ? (S.mapped(addr + (uint32_t)k) ? S.mword(addr + (uint32_t)k) : 0) : (uint16_t)x; }
+        if (longblock) { const Json &ws = o.get("wset"); for (size_t q = 0; q < ws.size() && q < 64; ++q) { int64_t at = ws.at(q).ati(0, 0), val = ws.at(q).ati(1, 0); if (at >= 0 && (size_t)at < n) w[(size_t)at] = (uint16_t)val; } }
         buf.snap();
         std::vector<char> ok_before(nr, 0);
         for (size_t r = 0; r < nr; ++r) ok_before[r] = S.actual_reg_ok(r);
